@@ -5,7 +5,7 @@
    by the screen stream: byte-for-byte correspondence with the render model, and an independent
    emulator (tools/vt.py) run on everything the implementation wrote. *)
 From Coq Require Import List Arith NArith.
-From RL Require Import UData Render Vt VtProofs VtRefresh.
+From RL Require Import UData Render Vt VtProofs VtRefresh VtFastPath.
 
 (* printing plain text: the terminal's position (deferred wrap = column count W) is, character by
    character, the position rustyline's calc_go computes -- for every text, start position and width *)
@@ -66,6 +66,26 @@ Theorem C02_redraws_ok_partial :
   /\ v_pending v' = false /\ tracks lay v'.
 Proof. exact redraws_ok. Qed.
 Print Assumptions C02_redraws_ok_partial.
+
+(* THE FAST PATH of self-insert (plain text): a character appended at the end of the line, no hint, cursor column + 1 inside
+   the window: rustyline writes just the character and moves the layout's cursor and end one column on. On a screen that shows
+   exactly the text with the cursor at its end (what a full redraw leaves), the result shows exactly the text + the character,
+   the cursor after it, no wrap pending, and the new layout's bookkeeping is right: so fast-path steps and full redraws
+   (C02_refresh_ok_partial) can follow one another in any order *)
+Theorem C02_fast_append_partial :
+  forall (W : nat), 1 <= W -> forall (shown_text : str) (ch : N) (lay : layout) (v : vt),
+  (forall r c, v_cells v r c = shown W shown_text r c) ->
+  cursor_cell v = next_cell (print W shown_text vt0) ->
+  v_pending v = false ->
+  tracks lay v ->
+  v_col v + 1 < W ->
+  let v' := run W (OPrint (ch :: nil) :: nil) v in
+  (forall r c, v_cells v' r c = shown W (shown_text ++ ch :: nil) r c)
+  /\ cursor_cell v' = next_cell (print W (shown_text ++ ch :: nil) vt0)
+  /\ v_pending v' = false
+  /\ tracks (fast_layout lay) v'.
+Proof. exact fast_append_ok. Qed.
+Print Assumptions C02_fast_append_partial.
 
 (* non-vacuity: 7 letters in 5 columns from the anchor end on row 1, column 2 *)
 Example C02_example :
